@@ -23,6 +23,9 @@ SHAPES = [
     "addr-quotes",
     "addr-odd",
     "ctype-odd",
+    "ctype-quote",
+    "addr-empty",
+    "nul-header",
 ]
 # not in SHAPES (expensive): "big" - a body of about 400 KiB, for pushes larger than any socket buffer
 
@@ -129,6 +132,24 @@ def build(shape, tok):
         hdr.append(b"Content-Language: en, (fr) de")
         hdr.append(b'Content-ID: <id"with"quotes@example.org>')
         hdr.append(b"Content-Description: desc with \"quotes\" and \\ backslash")
+    elif shape == "ctype-quote":
+        # specials where type, subtype and parameter names are expected
+        hdr.append(b"MIME-Version: 1.0")
+        hdr.append(b'Content-Type: te"xt/pl\\ain; ch"ar=us-ascii; name="a b"')
+        hdr.append(b'Content-Transfer-Encoding: 7"bit')
+        hdr.append(b'Content-Disposition: in"line; fi"le=x')
+    elif shape == "addr-empty":
+        # address headers that name nobody: an empty address list is NIL, never ()
+        hdr[0] = b"From: "
+        hdr[1] = b"To: ;"
+        hdr.append(b"Cc: ,")
+        hdr.append(b"Bcc: (only a comment)")
+        hdr.append(b"Sender: <>")
+        hdr.append(b"Reply-To: group:;")
+    elif shape == "nul-header":
+        hdr[2] = b"Subject: nul \x00 inside " + t.encode()
+        hdr[0] = b'From: "n\x00ul" <a\x00@example.org>'
+        hdr.append(b"In-Reply-To: <x\x00y@example.org>")
     elif shape == "big":
         body = [(b"%05d big body line " % i) + t.encode() + b" " + b"x" * 40 for i in range(6000)]
     else:
